@@ -4,7 +4,7 @@
 set -u
 P=$1; N=$2; shift 2
 CHECKS="${*:-$P}"
-WT=/tmp/wt/$P
+WT=${WTDIR:-/tmp/wt}/$P
 SRC=${SEEDDIR:-/tmp/seeded_out}/$P/$N
 TAG=${SEEDTAG:-}
 export CARGO_NET_OFFLINE=true
@@ -17,9 +17,9 @@ suite_fail=$(echo "$out" | grep -E "^test .* FAILED" | wc -l)
 echo "$out" | grep -qE "^error" && suite_fail=999
 passed=$(echo "$out" | grep -E "^test result" | awk '{s+=$4} END{print s}')
 cp "$SRC/demo.rs" tests/demo.rs
-demo_with=$(cargo test --offline --test demo 2>&1 | grep -E "^test result" | head -1)
+demo_with=$(cargo test --offline --workspace --test demo 2>&1 | grep -E "^test result" | head -1)
 git checkout -q -- .
-demo_without=$(timeout 600 cargo test --offline --test demo 2>&1 | grep -E "^test result" | head -1)
+demo_without=$(timeout 600 cargo test --offline --workspace --test demo 2>&1 | grep -E "^test result" | head -1)
 rm -f tests/demo.rs
 echo "$P-$N: suite failures (non-demo) with patch: $suite_fail (passed total $passed) | demo with patch: $demo_with | demo without: $demo_without"
 ok=1
